@@ -38,7 +38,7 @@ import (
 func TestVerif_C10_BarrierStandby(t *testing.T) {
 	seed := kit.Seed(10)
 	shard, nshards := kit.Shard()
-	r := kit.NewResult(t, "c10-barrier-standby", seed, "enumerated: store kind x meta prefix (root / namespace) x number of rotations the standby is behind (1..3, each with its upgrade entry) x root-key rotation (none / before the standby unsealed / after it unsealed, so its root key is stale) x the way the standby follows (CheckUpgrade loop + ReloadRootKey + ReloadKeyring as ha.go performKeyUpgrades, or the CheckUpgrade loop alone as the periodic check and the namespace keyring invalidation do) x the first keyring persist the promoted standby performs (rotate / SetRotationConfig / encryption-count persist / root-key rotation). After EVERY step of the standby its keyring is compared with the active node's (root key bytes, every term key, active term; VerifyRoot and Keyring() through the API); the standby serves reads (Get, read-only transaction Get, Decrypt, List) while it is behind - entries of terms it lacks fail legitimately - and after every single upgrade step and reload, where every entry and ciphertext whose term its keyring now holds must read back; then the standby acts as the active node (put, keyring persist, put), the old active node steps down or is sealed, every instance is sealed and a fresh instance must refuse the all-zero key, the superseded root key and other wrong keys, open with the valid root key and read every entry either instance wrote. Step comparisons do not stop a case here (the end state is judged as well). Every combination is a distinct case")
+	r := kit.NewResult(t, "c10-barrier-standby", seed, "enumerated: store kind x meta prefix (root / namespace) x number of rotations the standby is behind (1..3; the upgrade entries are written right after each rotation, or after all rotations oldest first, or newest first - CreateUpgrade is a separate call; each entry's content is compared with the key of the term it leads to) x root-key rotation (none / before the standby unsealed / after it unsealed, so its root key is stale) x the way the standby follows (CheckUpgrade loop + ReloadRootKey + ReloadKeyring as ha.go performKeyUpgrades, or the CheckUpgrade loop alone as the periodic check and the namespace keyring invalidation do) x the first keyring persist the promoted standby performs (rotate / SetRotationConfig / encryption-count persist / root-key rotation). After EVERY step of the standby its keyring is compared with the active node's (root key bytes, every term key, active term; VerifyRoot and Keyring() through the API); the standby serves reads (Get, read-only transaction Get, Decrypt, List) while it is behind - entries of terms it lacks fail legitimately - and after every single upgrade step and reload, where every entry and ciphertext whose term its keyring now holds must read back; then the standby acts as the active node (put, keyring persist, put), the old active node steps down or is sealed, every instance is sealed and a fresh instance must refuse the all-zero key, the superseded root key and other wrong keys, open with the valid root key and read every entry either instance wrote. Step comparisons do not stop a case here (the end state is judged as well). Every combination is a distinct case")
 	r.Exhaustive = true
 	defer r.Write(t)
 	styles := []string{"reload", "upgrade-only"}
@@ -55,7 +55,8 @@ func TestVerif_C10_BarrierStandby(t *testing.T) {
 							continue
 						}
 						tx, nsd := variant%2 == 0, variant >= 2
-						caseID := fmt.Sprintf("bs:%d:%d:%s:%s:%s", variant, behind, rr, style, keyOp)
+						upMode := (idx + behind) % 3
+						caseID := fmt.Sprintf("bs:%d:%d:%s:%s:%s:up%d", variant, behind, rr, style, keyOp, upMode)
 						if !kit.WantCase(caseID) {
 							continue
 						}
@@ -65,7 +66,7 @@ func TestVerif_C10_BarrierStandby(t *testing.T) {
 							continue
 						}
 						e.soft = true
-						c10StandbyCase(e, behind, rr, style, keyOp)
+						c10StandbyCase(e, behind, rr, style, keyOp, upMode)
 						r.Eval(1)
 						r.Nontrivial(caseID)
 						if idx <= 2 {
@@ -92,11 +93,15 @@ func TestVerif_C10_BarrierStandby(t *testing.T) {
 	r.Require("fresh_instance_unseals_after_promotion_with_superseded_root_keys", 150/div)
 	r.Require("wrong_key_kind:all-zero", 500/div)
 	r.Require("superseded_root_key_refused", 150/div)
+	r.Require("upgrade_entries_compared_with_the_term_key", 300/div)
+	r.Require("upgrade_entries_written_after_a_later_rotation", 60/div)
 	r.Require("standby_reads_while_behind_failed_legitimately", 500/div)
 	r.Require("standby_rereads_ok_of_terms_installed_by_the_upgrade_path", 500/div)
 }
 
-func c10StandbyCase(e *c10B, behind int, rootRot, style, keyOp string) {
+// upMode: 0 = every rotation writes its upgrade entry at once; 1 = all rotations first, then the
+// upgrade entries oldest first; 2 = all rotations first, then the upgrade entries newest first
+func c10StandbyCase(e *c10B, behind int, rootRot, style, keyOp string, upMode int) {
 	steps := []func(){
 		func() { e.opUnseal() },
 		func() { e.opPut() },
@@ -116,11 +121,31 @@ func c10StandbyCase(e *c10B, behind int, rootRot, style, keyOp string) {
 	for i := 0; i < behind; i++ {
 		// the standby serves reads while it is behind: entries of terms it does not hold yet fail
 		// (legitimately), and must read back once the term has arrived
-		steps = append(steps, func() { e.opRotate(true) }, func() { e.opPut() }, func() { e.opEncrypt() }, func() {
+		steps = append(steps, func() {
+			if upMode == 0 {
+				e.opRotate(true)
+			} else {
+				e.opRotateDeferred()
+			}
+		}, func() { e.opPut() }, func() { e.opEncrypt() }, func() {
 			e.step("standby-read", "standby serves reads (%d term(s) behind)", e.term-e.sTerm)
 			e.sbRead("serving reads while behind")
 		})
 	}
+	steps = append(steps, func() {
+		for len(e.pendUp) > 0 && !e.failed {
+			i := 0
+			if upMode == 2 {
+				i = len(e.pendUp) - 1
+			}
+			t := e.pendUp[i]
+			e.pendUp = append(e.pendUp[:i], e.pendUp[i+1:]...)
+			if t < e.term {
+				e.r.Count("upgrade_entries_written_after_a_later_rotation", 1)
+			}
+			e.createUpgrade(t)
+		}
+	})
 	steps = append(steps,
 		func() {
 			before := e.r.Get("promotions")
@@ -160,6 +185,9 @@ func c10SchedScenarios() []c10SchedScenario {
 		{"rot", "rd"}, {"rot", "rot", "rd"}, {"rr", "rot", "rd"},
 		// a read-write storage transaction (begin, put, put, commit) next to key operations and a seal
 		{"rot", "txw"}, {"rot", "rot", "txw"}, {"rr", "rot", "txw"}, {"txw", "seal"}, {"rot", "txw", "seal"},
+		// what RotateBarrierKey does, two or three times at once: Rotate, then (a separate call) CreateUpgrade of
+		// the term it got; a standby that was unsealed before follows the upgrade path afterwards
+		{"rotup", "rotup"}, {"rotup", "rotup", "rotup"}, {"rotup", "rotup", "put"}, {"rr", "rotup", "rotup"},
 	}
 	var out []c10SchedScenario
 	for i, l := range lists {
@@ -242,6 +270,17 @@ func c10SchedRun(r *kit.Result, seed int64, si int, sc c10SchedScenario, caseID 
 		acked[k] = v
 	}
 	cfg0, _ := b.RotationConfig()
+	// a standby that comes up now and follows the upgrade path after the concurrent part
+	var sb SecurityBarrier
+	for _, op := range sc.ops {
+		if op == "rotup" && sb == nil {
+			sb = NewAESGCMBarrier(phys, ns)
+			if err := sb.Unseal(c10Ctx, append([]byte(nil), root0...)); err != nil {
+				viol("harness", "standby Unseal: %v", err)
+				return kit.Schedule{}, false
+			}
+		}
+	}
 
 	// the concurrent requests; each parks at a start marker first so that the gate decides when it enters the barrier
 	res := make([]*c10SchedRes, len(sc.ops))
@@ -286,6 +325,15 @@ func c10SchedRun(r *kit.Result, seed int64, si int, sc c10SchedScenario, caseID 
 						out.puts[k] = pv
 					} else if !c10IsSealedErr(perr) || !hasSeal {
 						out.err = fmt.Errorf("put after rotate: %w", perr)
+					}
+				}
+			case "rotup":
+				out.term, out.err = b.Rotate(c10Ctx)
+				if out.err == nil {
+					// the two barrier calls are separate in the product: a scheduling point in between
+					_, _ = phys.Get(c10Ctx, c10Marker+"/between-rotate-and-create-upgrade")
+					if uerr := b.CreateUpgrade(c10Ctx, out.term); uerr != nil {
+						out.err = fmt.Errorf("create-upgrade: %w", uerr)
 					}
 				}
 			case "cfg":
@@ -428,7 +476,7 @@ func c10SchedRun(r *kit.Result, seed int64, si int, sc c10SchedScenario, caseID 
 		case "rr":
 			newRoots = append(newRoots, o.newRoot)
 			r.Count("concurrent_root_rotations_acknowledged", 1)
-		case "rot":
+		case "rot", "rotup":
 			rotations++
 			r.Count("concurrent_rotations_acknowledged", 1)
 		case "cfg":
@@ -456,7 +504,7 @@ func c10SchedRun(r *kit.Result, seed int64, si int, sc c10SchedScenario, caseID 
 	// terms Rotate handed out are distinct and consecutive
 	seenTerm := map[uint32]bool{}
 	for i, op := range sc.ops {
-		if op == "rot" && res[i].err == nil {
+		if (op == "rot" || op == "rotup") && res[i].err == nil {
 			if res[i].term <= term0 || res[i].term > wantTerm || seenTerm[res[i].term] {
 				viol("concurrent-key-operation-lost", "Rotate (request %d) returned term %d; initial term %d, %d rotation(s) acknowledged; schedule %s", i, res[i].term, term0, rotations, sched.String())
 				return sched, r.NViolations() < 20
@@ -570,6 +618,63 @@ func c10SchedRun(r *kit.Result, seed int64, si int, sc c10SchedScenario, caseID 
 				viol("concurrent-key-operation-lost", "running instance: VerifyRoot still accepts the root key an acknowledged root-key rotation superseded; schedule %s", sched.String())
 				return sched, r.NViolations() < 20
 			}
+		}
+		if sb != nil {
+			akr := c10Raw(b).keyring
+			// every upgrade entry holds exactly the key of the term it leads to
+			for i, op := range sc.ops {
+				if op != "rotup" || res[i].err != nil {
+					continue
+				}
+				t := res[i].term
+				path := fmt.Sprintf("%s%s%d", meta, KeyringUpgradePrefix, t-1)
+				pe, _ := probe.Inner().Get(c10Ctx, path)
+				var key *Key
+				if pe != nil {
+					if plain, derr := b.Decrypt(c10Ctx, path, pe.Value); derr == nil {
+						key, _ = DeserializeKey(plain)
+					}
+				}
+				want := akr.TermKey(t)
+				if key == nil || want == nil || key.Term != t || !bytes.Equal(key.Value, want.Value) {
+					kt := uint32(0)
+					if key != nil {
+						kt = key.Term
+					}
+					viol("upgrade-entry-holds-another-terms-key", "after %s the upgrade entry %s (the step from term %d to term %d, written by request %d after its Rotate returned term %d) holds the key of term %d; schedule %s", sc.name, strings.TrimPrefix(path, meta), t-1, t, i, t, kt, sched.String())
+					return sched, r.NViolations() < 20
+				}
+				r.Count("upgrade_entries_compared_with_the_term_key", 1)
+			}
+			// the standby follows the upgrade path and ends with an identical keyring
+			for i := 0; i < 16; i++ {
+				did, _, uerr := sb.CheckUpgrade(c10Ctx)
+				if uerr != nil {
+					viol("standby-follow-failed", "standby CheckUpgrade after %s: %v; schedule %s", sc.name, uerr, sched.String())
+					return sched, r.NViolations() < 20
+				}
+				if !did {
+					break
+				}
+			}
+			got, want := c10Snap(c10Raw(sb).keyring), c10Snap(akr)
+			rootSame := bytes.Equal(got.Root, want.Root)
+			got.Root, want.Root = nil, nil // a root-key rotation next to it is picked up by ReloadRootKey, not by the upgrade path
+			if d := got.diff(want); d != "" {
+				viol("standby-keyring-differs-from-active", "after %s the standby followed the upgrade path (CheckUpgrade until nothing is left) and its keyring differs from the active node's: %s (standby %s, active %s); schedule %s", sc.name, d, got, want, sched.String())
+				return sched, r.NViolations() < 20
+			}
+			r.Count("standby_keyrings_identical_after_concurrent_rotations", 1)
+			if !rootSame {
+				if rerr := sb.ReloadRootKey(c10Ctx); rerr != nil {
+					viol("standby-follow-failed", "standby ReloadRootKey after %s: %v", sc.name, rerr)
+					return sched, r.NViolations() < 20
+				}
+			}
+			if !judge("standby after the upgrade path", sb) {
+				return sched, r.NViolations() < 20
+			}
+			_ = sb.Seal()
 		}
 		if err := b.Seal(); err != nil {
 			viol("seal-failed", "Seal: %v", err)
@@ -775,6 +880,8 @@ func TestVerif_C10_BarrierSchedules(t *testing.T) {
 	r.Require("schedules_with_seal", 45/div)
 	r.Require("concurrent_read_sweeps_next_to_a_rotation", 40/div)
 	r.Require("concurrent_transactions", 60/div)
+	r.Require("upgrade_entries_compared_with_the_term_key", 150/div)
+	r.Require("standby_keyrings_identical_after_concurrent_rotations", 70/div)
 	r.Require("transactional_put_term_checks_issued_after_a_rotation_returned", 30/div)
 }
 
